@@ -72,6 +72,7 @@ func (root *Root) AddTypes(types ...Type) (err error) {
 	// revert to the original version.
 	origTypes := root.types
 	origDirs := root.dirs
+	origSchema := root.schema
 	root.types = origTypes.dup()
 	root.dirs = origDirs.dup()
 
@@ -82,6 +83,7 @@ func (root *Root) AddTypes(types ...Type) (err error) {
 	if err != nil {
 		root.types = origTypes
 		root.dirs = origDirs
+		root.schema = origSchema
 	}
 	return
 }
@@ -328,6 +330,7 @@ func (root *Root) ParseReader(r io.Reader) error {
 	// revert to the original version.
 	origTypes := root.types
 	origDirs := root.dirs
+	origSchema := root.schema
 	root.types = origTypes.dup()
 	root.dirs = origDirs.dup()
 
@@ -345,6 +348,7 @@ func (root *Root) ParseReader(r io.Reader) error {
 	if err != nil {
 		root.types = origTypes
 		root.dirs = origDirs
+		root.schema = origSchema
 	}
 	return err
 }
